@@ -8,7 +8,7 @@ tie   : T-cor - every allocator event (construct/copy/rebind/socc/assign/destroy
 oracle: std::allocator twin, counting base allocator, pool count == live nodes, pool identity after copy/move/swap."""
 import os
 
-GEN = ['gen_uintmath.json', 'gen_poolconst.json', 'gen_mempool.json', 'gen_alloc.json']
+GEN = ['gen_uintmath.json', 'gen_poolconst.json', 'gen_mempool.json', 'gen_alloc.json', 'gen_poolops.json']
 KINDS = ['list', 'flist', 'map', 'set', 'mmap', 'umap', 'uset']
 PART = {'checkparams': 1, 'list': 0, 'flist': 0, 'map': 0, 'set': 0, 'mmap': 1, 'umap': 1, 'uset': 1, 'direct': 1, 'duo': 1, 'retarget': 1}
 TYPES = [(24, 8), (40, 8), (8, 8), (16, 8), (4, 4), (32, 16), (3, 1), (48, 16)]   # harness.cpp TypeOf<>
@@ -464,7 +464,9 @@ def run(ctx):
     ctx.stage('oracle', not bad and not crashed, (bad[0][2] if bad else '') + crashed)
     for (c, out, why) in bad[:3]:
         ctx.violation(why, {'case': c, 'impl_output': out[:2000], 'cmd': 'echo "<case>" | build/C20/harness_p%d' % part_of(c)}, found_input=True)
-    have_model = ctx.stages.get('prove', {}).get('ok') and ctx.extract()
+    # the executable model is extracted even when a PROOF broke (make -k still builds PoolAlloc.vo): the event tie is then part of
+    # the search for a concrete failing input
+    have_model = ctx.extract()
     if have_model:
         for (c, why) in model_check(ctx, cases, lines):
             ctx.violation('model and implementation disagree: ' + why, {'case': c}, found_input=True)
